@@ -34,6 +34,9 @@ Pool ==
     A(<<S(<<97>>)>>), A(<<I("1"), S(<<97>>)>>),
     O([key \in {} |-> Nil]), O([key \in {"a"} |-> I("1")]), O([key \in {"a"} |-> Fl("1", "1")]), O([key \in {"b"} |-> I("1")]),
     O([key \in {"a", "b"} |-> I("1")]), O([key \in {"a", "b"} |-> IF key = "a" THEN I("1") ELSE I("2")]),
+    \* same size, different key sets, the extra key holding nil: not equal, in either order
+    O([key \in {"a", "b"} |-> IF key = "a" THEN Nil ELSE I("1")]), O([key \in {"b", "c"} |-> IF key = "b" THEN I("1") ELSE I("2")]),
+    O([key \in {"b", "c"} |-> IF key = "b" THEN I("1") ELSE Nil]),
     SixKeys(I("1")), SixKeys(I("2")), SixKeys(A(<<I("1")>>)),
     O([key \in {"a"} |-> O([key2 \in {"x", "y", "z"} |-> I("1")])]) }
 
